@@ -4,9 +4,9 @@
    ANY function of step number, current parameter values and parameter index).  NO law on the
    scalar operations is assumed anywhere: the two runs compute the same terms, so for floats
    the results are bit-identical. *)
-From Coq Require Import List NArith ZArith Bool String Arith Lia.
+From Coq Require Import List NArith ZArith Bool String Arith Lia Permutation.
 From PV Require Import Base.Scalar Optim.OptModel Optim.Checkpoint Optim.OptLemmas Optim.OptProofs
-  Optim.OptInv Optim.CheckpointProofs Optim.OptExamples.
+  Optim.OptInv Optim.CheckpointProofs Optim.OptPerm Optim.OptAddFirst Optim.OptExamples.
 Import ListNotations.
 Local Open Scope string_scope.
 
@@ -59,6 +59,33 @@ Theorem C15_invariant_preserved t n (s s' : state T) : good T O s -> train T O G
   good T O s' /\ o_alg (st_opt s') = o_alg (st_opt s) /\ o_reg (st_opt s') = o_reg (st_opt s).
 Proof. exact (train_good T O G t n s s'). Qed.
 
+(* The fresh optimizer iterates over its unordered_set in an order of its own (new addresses).
+   With clipping off this changes nothing, still without any law on the scalars; with clipping
+   on it only permutes the summation of the norm, so the statement needs addition to be
+   associative and commutative (exact arithmetic; "within float rounding" for floats).
+   [interrupted_perm a0 reg' k n s0] registers in the order reg' after loading. *)
+Theorem C15_resume_equiv_any_iteration_order a0 reg' k n (s0 : state T) :
+  good T O s0 -> kind_of a0 = kind_of (o_alg (st_opt s0)) ->
+  Permutation (o_reg (st_opt s0)) reg' -> clip_off T O (st_opt s0) \/ add_ac T O ->
+  option_map (obs T) (interrupted_perm T O G a0 reg' k n s0)
+  = option_map (fun s => obs T (reorder T reg' s)) (train T O G 0 (k + n) s0).
+Proof. exact (resume_equiv_perm T O G a0 reg' k n s0). Qed.
+
+Theorem C15_update_iteration_order_independent reg' (s : state T) :
+  NoDup (o_reg (st_opt s)) -> Permutation (o_reg (st_opt s)) reg' -> clip_off T O (st_opt s) \/ add_ac T O ->
+  update T O (reorder T reg' s) = option_map (reorder T reg') (update T O s).
+Proof. exact (update_reorder T O reg' s). Qed.
+
+(* the other program order: register freshly constructed valid parameters [init] first (this
+   creates zero statistics), then load the model and the optimizer *)
+Theorem C15_resume_equiv_add_then_load a0 (init : store T) k n (s0 : state T) :
+  good T O s0 -> kind_of a0 = kind_of (o_alg (st_opt s0)) ->
+  List.length init = List.length (st_params s0) ->
+  (forall j, In j (o_reg (st_opt s0)) -> exists p, get_param init j = Some p) ->
+  option_map (obs T) (interrupted_add_first T O G a0 init k n s0)
+  = option_map (obs T) (train T O G 0 (k + n) s0).
+Proof. exact (resume_add_first_equiv T O G a0 init k n s0). Qed.
+
 End C15.
 
 Print Assumptions C15_resume_equiv.
@@ -67,6 +94,9 @@ Print Assumptions C15_checkpoint_complete.
 Print Assumptions C15_training_respects_observables.
 Print Assumptions C15_configs_round_trip.
 Print Assumptions C15_invariant_preserved.
+Print Assumptions C15_resume_equiv_any_iteration_order.
+Print Assumptions C15_update_iteration_order_independent.
+Print Assumptions C15_resume_equiv_add_then_load.
 
 (* non-vacuity: a MomentumSGD state over the integers (three parameters, two registered in the
    order 1, 0; lr scaling 2, decay 1, epoch 7) with a value-dependent gradient oracle satisfies
@@ -78,6 +108,9 @@ Example C15_nonvacuous :
   (exists x, option_map (obs Z) (interrupted Z Zops ck_G (MomentumSGD 9 9)%Z 2 3 ck_state) = Some x /\
      option_map (obs Z) (train Z Zops ck_G 0 5 ck_state) = Some x /\
      fst x <> fst (obs Z ck_state) /\ o_epoch (snd x) = 12%N) /\
+  (clip_off Z Zops (st_opt ck_state) /\ Permutation (o_reg (st_opt ck_state)) [0; 1] /\
+   exists y, option_map (obs Z) (interrupted_perm Z Zops ck_G (MomentumSGD 9 9)%Z [0; 1] 2 3 ck_state) = Some y /\
+             o_reg (snd y) = [0; 1]) /\
   (match train Z Zops ck_G 0 2 ck_state with
    | Some sk => match checkpoint Z sk with
                 | Some c => match resume Z Zops (MomentumSGD 9 9)%Z [1; 0] (drop_stats Z c) with
@@ -100,5 +133,8 @@ Proof.
   split.
   { eexists. split; [vm_compute; reflexivity|]. split; [vm_compute; reflexivity|].
     split; [vm_compute; discriminate|reflexivity]. }
+  split.
+  { split; [reflexivity|]. split; [apply perm_swap|].
+    eexists. split; [vm_compute; reflexivity|reflexivity]. }
   vm_compute. discriminate.
 Qed.
